@@ -53,6 +53,8 @@ GARBAGE = "@@@ this file must never be compiled ((( \n"
 
 # box-root-relative names of the three areas
 CWD, MODS, OUT = "p", "m", "o"
+# a second outside directory whose name merely *extends* the working directory's name
+OUT2 = "px"
 # absolute paths inside the world are written with this prefix in a spec; rendering replaces it
 # by the scratch root of the box the world is materialised in
 ROOT = "/ROOT"
@@ -260,6 +262,7 @@ def gen_world(rnd, valid_only=None):
             "status": rnd.randint(0, 60)}
     # things that exist but must not be importable
     add_file("%s/ext.capy" % OUT, garbage=rnd.random() < 0.5)
+    add_file("%s/ext2.capy" % OUT2, garbage=rnd.random() < 0.5)
     if rnd.random() < 0.5:
         spec["dirs"].append("%s/d.capy" % rnd.choice(dirs))
     if rnd.random() < 0.5:
@@ -298,7 +301,8 @@ def gen_world(rnd, valid_only=None):
         files[importer]["imports"].append(
             {"alias": "i%d" % alias_n[0], "kind": kind, "arg": arg, "line": line[0]})
 
-    importers = sorted(p for p in files if not files[p].get("garbage") and not Model.inside(p, OUT))
+    importers = sorted(p for p in files if not files[p].get("garbage") and not Model.inside(p, OUT)
+                       and not Model.inside(p, OUT2))
     for importer in importers:
         n = rnd.randint(1, 3) if importer.endswith("/main.capy") and Model.inside(importer, CWD) \
             else rnd.randint(0, 3)
@@ -316,7 +320,8 @@ def gen_world(rnd, valid_only=None):
             else:
                 d = posixpath.dirname(importer)
                 bad = rnd.choice(["missing", "noncapy", "dircapy", "outside", "abs_outside", "mod",
-                                  "outside_deep", "almost_capy", "elsewhere"])
+                                  "outside_deep", "almost_capy", "elsewhere", "outside_sibling",
+                                  "outside_sibling"])
                 if bad == "missing":
                     add_import(importer, "import", rnd.choice(["nope.capy", "a/nope.capy", "../nope.capy"]))
                 elif bad == "noncapy":
@@ -333,6 +338,9 @@ def gen_world(rnd, valid_only=None):
                     add_import(importer, "import", posixpath.relpath(ds[0], d) if ds else "a.capy/")
                 elif bad == "outside":
                     add_import(importer, "import", posixpath.relpath("%s/ext.capy" % OUT, d))
+                elif bad == "outside_sibling":
+                    add_import(importer, "import", rnd.choice([
+                        posixpath.relpath("%s/ext2.capy" % OUT2, d), "%s/%s/ext2.capy" % (ROOT, OUT2)]))
                 elif bad == "outside_deep":
                     add_import(importer, "import", "a/../" + posixpath.relpath("%s/ext.capy" % OUT, d))
                 elif bad == "abs_outside":
@@ -358,7 +366,8 @@ def gen_world(rnd, valid_only=None):
             spec["chains"].append(chain)
     # files nothing reaches may hold garbage: they must never be compiled
     for p in files:
-        if p not in reachable and not Model.inside(p, OUT) and rnd.random() < 0.5:
+        if p not in reachable and not Model.inside(p, OUT) and not Model.inside(p, OUT2) \
+                and rnd.random() < 0.5:
             files[p]["garbage"] = True
     return spec
 
@@ -371,7 +380,7 @@ DIAG_RE = re.compile(r"^error: (.*)\n\s*--> at (.*):(\d+):(\d+)$", re.M)
 
 def run_world(bx, spec, world, want_run=True):
     model, reachable, rejected, edges, chains = materialise(bx, spec)
-    res = bx.compile(["build", "main.capy", "--mod-dir", bx.mods], world, trace=True)
+    res = bx.compile(["build", "main.capy", "--mod-dir", bx.mods], world, trace=True, timeout=20)
     out = res.stdout.decode(errors="replace")
     diags = [(m.group(1), m.group(2), int(m.group(3))) for m in DIAG_RE.finditer(out)]
     loose_errors = [l for l in out.splitlines() if l.startswith("error")]
